@@ -32,7 +32,7 @@
 (*        (leak; e.g. loop-condition temporaries re-assigned every turn)    *)
 (*   leak-at-return : something droppable is still owned when returning     *)
 (***************************************************************************)
-EXTENDS Naturals, Sequences, FiniteSets, TLC, Json, IOUtils
+EXTENDS Naturals, Sequences, SequencesExt, FiniteSets, TLC, Json, IOUtils
 
 Fns == ndJsonDeserialize(IOEnv.MIR)       \* one JSON object per function
 
